@@ -392,6 +392,11 @@ pub fn parent_main<W: World>(tier: Tier, plan: Plan, extra: Extra) -> i32 {
 }
 
 fn parent_once<W: World>(tier: Tier, plan: &Plan, extra: &Extra) -> Option<i32> {
+    // development knob (never set by a registered check): explore more or fewer runs than the tier's plan
+    let plan = &Plan {
+        runs: std::env::var("VERIF_RUNS").ok().and_then(|s| s.parse().ok()).unwrap_or(plan.runs),
+        budget_s: plan.budget_s, selftest_runs: plan.selftest_runs, workers: plan.workers,
+    };
     let t0 = Instant::now();
     let seed = env_seed();
     let prop = W::PROP;
